@@ -14,7 +14,16 @@
     - [visit_complete]: every simple path of the RESULT that extends P inside the component has been
       visited, so its last node has no edge of the result back into the path.
     - [visit_total]: the depth budget is never exhausted.
-    - component level ([comp_*]), label level ([labels_*]), then the theorems. *)
+    - component level ([comp_*]), label level ([labels_*]), then the theorems; reachability from the
+      roots across components is an induction on the breadth-first distance ([dir_loop_reach]): an
+      edge between two components is never removed, and inside a component every node stays
+      reachable from a subroot, which is strictly closer to the roots.
+
+    Undirected branch (second half of the file): same two ideas. A call with path P removes only edges
+    cur - v with v on P and not the predecessor of cur, so the two ends stay joined by the path
+    ([uvisit_frame]: ALL connectivity is preserved, the pattern stays symmetric); every duplicate-free
+    path of the result from the start node was visited ([uvisit_complete]), so a simple cycle on >= 3
+    nodes that a start node reaches cannot survive ([no_back_edge_no_ucycle], [uloop_no_cycle]). *)
 From Coq Require Import Permutation.
 From SKN Require Import Base.Util Model.Bfs Model.Structure Model.Cycles
   Proofs.BfsProofs Proofs.StructureProofs Proofs.CyclesProofs.
@@ -560,7 +569,7 @@ Proof.
     + intros z Hz. apply Ry; [exact Hs|]. apply Rx. exact Hz.
 Qed.
 
-Lemma comp_total g comp dist l :
+Lemma comp_total (g : graph) comp dist l :
   length comp = length g -> exists h, bc_component g comp dist l = Some h.
 Proof.
   intros Hlen. rewrite bc_component_unfold.
@@ -670,7 +679,7 @@ Proof.
     split; auto. split; auto. split; [congruence|]. rewrite Eu. exact Hl.
 Qed.
 
-Lemma labels_total comp dist L a :
+Lemma labels_total comp dist L (a : graph) :
   length comp = length a -> exists b, ofold (lstep comp dist) L (Some a) = Some b.
 Proof.
   intros Hlen. apply (ofold_total _ (fun x : graph => length x = length a)); [reflexivity|].
@@ -851,4 +860,777 @@ Proof.
   - exact (G k v Hv Hk).
   - exfalso. destruct (reach_reachk g0 src r v Hrv) as [k Hk]; [|exact (Hno _ Hk)].
     exists 0. simpl. unfold src. rewrite nthb_one_hot by exact Hrl. apply memn_In. exact Hr.
+Qed.
+
+(** * break_cycles, directed branch: the general theorem *)
+
+Lemma break_cycles_dir_unfold vo g root directed comp1 comp2 :
+  resolve_directed g directed = Ok true ->
+  break_cycles vo g root directed comp1 comp2 =
+  match is_acyclic g directed comp1 with
+  | Err e => Err e
+  | Ok true => Ok g
+  | Ok false =>
+      if negb (forallb (fun r => r <? length g) root) then Err IndexError
+      else if sumn (map (fun r => length (row g r)) root) =? 0 then Err ValueError
+      else match bfs (drop_loops g) (one_hot (length g) root) with
+           | None => Err OutOfFuel
+           | Some dist =>
+               match ofold (lstep comp2 dist) (labels_of comp2) (Some (drop_loops g)) with
+               | Some r => Ok r
+               | None => Err OutOfFuel
+               end
+           end
+  end.
+Proof.
+  intros H. unfold break_cycles. destruct (is_acyclic g directed comp1) as [[|]|]; auto.
+  destruct (negb (forallb (fun r => r <? length g) root)); auto.
+  destruct (sumn (map (fun r => length (row g r)) root) =? 0); auto.
+  rewrite H. reflexivity.
+Qed.
+
+Lemma is_acyclic_flag g directed comp :
+  resolve_directed g directed = Ok true -> is_acyclic g directed comp = is_acyclic g (Some true) comp.
+Proof. intros H. unfold is_acyclic. rewrite H. reflexivity. Qed.
+
+Theorem break_cycles_directed_correct_lemma
+        (vo : bool) (g : graph) (root : list nat) (directed : option bool) (comp1 comp2 : list nat) :
+  wf_graph g ->
+  resolve_directed g directed = Ok true ->
+  components_contract g true comp1 ->
+  components_contract (drop_loops g) true comp2 ->
+  break_cycles vo g root directed comp1 comp2 <> Err OutOfFuel /\
+  forall h, break_cycles vo g root directed comp1 comp2 = Ok h ->
+    length h = length g /\
+    (forall u v, edge h u v -> edge g u v /\ u <> v) /\
+    (forall c, ~ dcycle h c) /\
+    (forall r v, In r root -> reach (edge g) r v -> exists r', In r' root /\ reach (edge h) r' v).
+Proof.
+  intros Hwf Hres Hc1 Hc2. rewrite (break_cycles_dir_unfold vo g root directed comp1 comp2 Hres).
+  rewrite (is_acyclic_flag g directed comp1 Hres).
+  set (g0 := drop_loops g).
+  assert (Hwf0 : wf_graph g0) by (apply (wf_sub g0 g Hwf); apply drop_loops_sub).
+  assert (Hl0 : length g0 = length g) by apply drop_loops_length.
+  destruct (is_acyclic g (Some true) comp1) as [[|]|e] eqn:Eac.
+  - (* already acyclic: returned as it is *)
+    split; [discriminate|]. intros h Hh. inversion Hh; subst h.
+    pose proof (proj1 (is_acyclic_directed_lemma g comp1 true Hwf Hc1 Eac) eq_refl) as Hno.
+    split; auto. split; [|split].
+    + intros u v Huv. split; auto. intros E. subst v. apply Hno. exists [u].
+      split; [discriminate|]. split; [constructor; [intros []|constructor]|]. simpl. auto.
+    + intros c Hc. apply Hno. exists c. exact Hc.
+    + intros r v Hr Hrv. exists r. auto.
+  - destruct (negb (forallb (fun r => r <? length g) root)) eqn:Eroot; [split; [discriminate|intros h Hh; discriminate]|].
+    destruct (sumn (map (fun r => length (row g r)) root) =? 0); [split; [discriminate|intros h Hh; discriminate]|].
+    apply negb_false_iff in Eroot. rewrite forallb_forall in Eroot.
+    destruct (bfs_exact g0 (one_hot (length g) root)) as [dist [Hb _]]; [rewrite one_hot_length; auto|].
+    rewrite Hb. cbv beta iota. pose proof Hc2 as [Hlen2 _]. fold g0 in Hlen2.
+    destruct (labels_total comp2 dist (labels_of comp2) g0 Hlen2) as [h Hh]. rewrite Hh.
+    split; [discriminate|]. intros h' Eh. inversion Eh; subst h'. clear Eh.
+    pose proof (labels_frame _ _ _ _ _ Hh) as [[Lh Sh] _].
+    split; [congruence|]. split; [|split].
+    + intros u v Huv. apply Sh in Huv. apply drop_loops_edge in Huv. exact Huv.
+    + apply (dir_loop_acyclic g0 comp2 dist h); auto.
+      intros u Huu. apply drop_loops_edge in Huu. destruct Huu as [_ N]. apply N. reflexivity.
+    + intros r v Hr Hrv. rewrite <- Hl0 in Hb.
+      apply (dir_loop_reach g0 root comp2 dist h Hwf0 Hc2 Hb Hh r v Hr).
+      * rewrite Hl0. apply Nat.ltb_lt. apply Eroot. exact Hr.
+      * apply reach_drop_loops. exact Hrv.
+  - exfalso. unfold is_acyclic in Eac. cbn [resolve_directed] in Eac. destruct (has_loops g); discriminate.
+Qed.
+
+(** For admissible roots (in range, with an outgoing edge) the model answers [Ok]. *)
+Theorem break_cycles_directed_total_lemma
+        (vo : bool) (g : graph) (root : list nat) (directed : option bool) (comp1 comp2 : list nat) :
+  resolve_directed g directed = Ok true -> length comp2 = length g ->
+  (forall r, In r root -> r < length g) -> 0 < out_degree g root ->
+  exists h, break_cycles vo g root directed comp1 comp2 = Ok h.
+Proof.
+  intros Hres Hlen Hroot Hdeg. rewrite (break_cycles_dir_unfold vo g root directed comp1 comp2 Hres).
+  rewrite (is_acyclic_flag g directed comp1 Hres). unfold is_acyclic. cbn [resolve_directed].
+  assert (Hex : forall b : bool, exists h, match (Ok b : result bool) with
+    | Err e => Err e | Ok true => Ok g
+    | Ok false =>
+      if negb (forallb (fun r => r <? length g) root) then Err IndexError
+      else if sumn (map (fun r => length (row g r)) root) =? 0 then Err ValueError
+      else match bfs (drop_loops g) (one_hot (length g) root) with
+           | None => Err OutOfFuel
+           | Some dist =>
+               match ofold (lstep comp2 dist) (labels_of comp2) (Some (drop_loops g)) with
+               | Some r => Ok r
+               | None => Err OutOfFuel
+               end
+           end end = Ok h).
+  { intros [|]; [eexists; reflexivity|].
+    assert (E1 : forallb (fun r => r <? length g) root = true).
+    { apply forallb_forall. intros r Hr. apply Nat.ltb_lt. auto. }
+    rewrite E1. cbn [negb].
+    assert (E2 : sumn (map (fun r => length (row g r)) root) =? 0 = false).
+    { apply Nat.eqb_neq. unfold out_degree in Hdeg. lia. }
+    rewrite E2.
+    destruct (bfs_exact (drop_loops g) (one_hot (length g) root)) as [dist [Hb _]];
+      [rewrite one_hot_length, drop_loops_length; auto|].
+    rewrite Hb. cbv beta iota.
+    destruct (labels_total comp2 dist (labels_of comp2) (drop_loops g)) as [h Hh];
+      [rewrite drop_loops_length; exact Hlen|].
+    rewrite Hh. eexists; reflexivity. }
+  destruct (has_loops g); [exact (Hex false)|]. exact (Hex _).
+Qed.
+
+(** * The executable contract checker is sound (strong connectivity) — used for non-vacuity *)
+Lemma scc_contract_b_sound g comp :
+  components_contract_b g true comp = true -> components_contract g true comp.
+Proof.
+  unfold components_contract_b. cbv zeta. intros H. apply andb_true_iff in H. destruct H as [H1 H2].
+  apply Nat.eqb_eq in H1. split; auto. intros u v Hu Hv.
+  rewrite forallb_forall in H2. specialize (H2 u (proj2 (nodes_In g u) Hu)).
+  rewrite forallb_forall in H2. specialize (H2 v (proj2 (nodes_In g v) Hv)).
+  apply Bool.eqb_prop in H2.
+  unfold conn_matrix, nodes in H2.
+  rewrite (nth_map_seq (fun u => map (fun v =>
+      nthb (nth u (map (fun u0 => reach_from g [u0]) (seq 0 (length g))) []) v &&
+      nthb (nth v (map (fun u0 => reach_from g [u0]) (seq 0 (length g))) []) u) (seq 0 (length g)))
+      (length g) u [] Hu) in H2.
+  unfold nthb at 1 in H2.
+  rewrite (nth_map_seq (fun v =>
+      nthb (nth u (map (fun u0 => reach_from g [u0]) (seq 0 (length g))) []) v &&
+      nthb (nth v (map (fun u0 => reach_from g [u0]) (seq 0 (length g))) []) u)
+      (length g) v false Hv) in H2.
+  rewrite (nth_map_seq (fun u0 => reach_from g [u0]) (length g) u [] Hu) in H2.
+  rewrite (nth_map_seq (fun u0 => reach_from g [u0]) (length g) v [] Hv) in H2.
+  assert (R : forall a b, a < length g -> b < length g ->
+                (nthb (reach_from g [a]) b = true <-> reach (edge g) a b)).
+  { intros a b Ha Hb. rewrite (reach_from_iff g [a] b Hb). split.
+    - intros [s [[E|[]] [_ Hr]]]. subst. exact Hr.
+    - intros Hr. exists a. split; [left; reflexivity | auto]. }
+  unfold sconn. rewrite <- (R u v Hu Hv), <- (R v u Hv Hu), <- andb_true_iff, <- H2. symmetry. apply Nat.eqb_eq.
+Qed.
+
+(** * Undirected branch *)
+
+Definition Rund (prev : option nat) (path nbrs : list nat) (v : nat) : Prop :=
+  In v nbrs /\ is_prev prev v = false /\ In v path.
+
+Lemma bc_scan_und_spec cur prev path : forall nbrs g,
+  let r := bc_scan_und cur prev path nbrs g in
+  length (fst r) = length g /\
+  (forall u v, edge (fst r) u v <->
+     edge g u v /\ ~ (u = cur /\ Rund prev path nbrs v) /\ ~ (v = cur /\ Rund prev path nbrs u)) /\
+  (forall v, In v (snd r) <-> In v nbrs /\ is_prev prev v = false /\ ~ In v path).
+Proof.
+  induction nbrs as [|w t IH]; intros g; cbn [bc_scan_und]; cbv zeta.
+  - cbn [fst snd]. split; auto. split.
+    + intros u v. unfold Rund. simpl. tauto.
+    + intros v. simpl. tauto.
+  - destruct (is_prev prev w) eqn:Ep; [|destruct (memn w path) eqn:Ew].
+    + specialize (IH g). cbv zeta in IH. destruct IH as [L [HE HP]]. split; auto.
+      assert (HR : forall v, Rund prev path (w :: t) v <-> Rund prev path t v).
+      { intros v. unfold Rund. simpl. split; [|tauto]. intros [[E|H] [A B]]; [subst; congruence | tauto]. }
+      split.
+      * intros u v. rewrite HE, !HR. tauto.
+      * intros v. rewrite HP. simpl. split; [tauto|]. intros [[E|H] [A B]]; [subst; congruence | tauto].
+    + apply memn_In in Ew.
+      specialize (IH (remove_edge (remove_edge g cur w) w cur)). cbv zeta in IH. destruct IH as [L [HE HP]].
+      split; [rewrite L, !remove_edge_length; reflexivity|].
+      assert (HR : forall v, Rund prev path (w :: t) v <-> v = w \/ Rund prev path t v).
+      { intros v. unfold Rund. simpl. split.
+        - intros [[E|H] [A B]]; [left; auto | right; auto].
+        - intros [E|[H [A B]]]; [subst; auto | auto]. }
+      split.
+      * intros u v. rewrite HE, !remove_edge_iff, !HR. split.
+        -- intros [[[A B] C] [D F]]. split; auto. split.
+           ++ intros [E1 [E2|E2]]; [apply B; auto | apply D; auto].
+           ++ intros [E1 [E2|E2]]; [apply C; auto | apply F; auto].
+        -- intros [A [B C]]. split; [split; [split; auto|]|split].
+           ++ intros [E1 E2]. apply B. auto.
+           ++ intros [E1 E2]. apply C. auto.
+           ++ intros [E1 E2]. apply B. auto.
+           ++ intros [E1 E2]. apply C. auto.
+      * intros v. rewrite HP. simpl. split; [tauto|]. intros [[E|H] [A B]]; [subst; contradiction | tauto].
+    + assert (Hw : ~ In w path) by (intros H; apply memn_In in H; congruence).
+      specialize (IH g). cbv zeta in IH. destruct IH as [L [HE HP]]. cbn [fst snd]. split; auto.
+      assert (HR : forall v, Rund prev path (w :: t) v <-> Rund prev path t v).
+      { intros v. unfold Rund. simpl. split; [|tauto]. intros [[E|H] [A B]]; [subst; contradiction | tauto]. }
+      split.
+      * intros u v. rewrite HE, !HR. tauto.
+      * intros v. simpl. rewrite HP. split.
+        -- intros [E|[A [B C]]]; [subst; auto | auto].
+        -- intros [[E|A] [B C]]; [left; auto | right; auto].
+Qed.
+
+Definition sym (g : graph) : Prop := forall u v, edge g u v -> edge g v u.
+
+Definition uvisit_step (d : nat) (path : list nat) : graph -> nat -> option graph :=
+  fun ga v => bc_visit_und d ga v (path ++ [v]).
+
+Lemma bc_visit_und_unfold d g cur path :
+  bc_visit_und (S d) g cur path =
+  if edge_gone g path then Some g
+  else let r := bc_scan_und cur (prev_of path) path (row g cur) g in
+       ofold (uvisit_step d path) (rev (snd r)) (Some (fst r)).
+Proof. reflexivity. Qed.
+
+(** The scan as called by [bc_visit_und]: R v = "v is a neighbour of cur on the path, not its predecessor". *)
+Definition Rv (g : graph) (path : list nat) (cur v : nat) : Prop :=
+  edge g cur v /\ is_prev (prev_of path) v = false /\ In v path.
+
+Lemma uvisit_scan_spec g cur path :
+  let r := bc_scan_und cur (prev_of path) path (row g cur) g in
+  length (fst r) = length g /\
+  (forall u v, edge (fst r) u v <->
+     edge g u v /\ ~ (u = cur /\ Rv g path cur v) /\ ~ (v = cur /\ Rv g path cur u)) /\
+  (forall v, In v (snd r) <-> edge g cur v /\ ~ In v path).
+Proof.
+  cbv zeta. destruct (bc_scan_und_spec cur (prev_of path) path (row g cur) g) as [L [HE HP]].
+  split; auto. split; [exact HE|].
+  intros v. rewrite HP. unfold edge. split; [tauto|]. intros [A B]. split; auto. split; auto.
+  apply is_prev_notin. exact B.
+Qed.
+
+Lemma Rv_dec g path cur v : {Rv g path cur v} + {~ Rv g path cur v}.
+Proof.
+  unfold Rv. destruct (edge_dec g cur v) as [A|A]; [|right; tauto].
+  destruct (is_prev (prev_of path) v); [right; intros [_ [B _]]; discriminate|].
+  destruct (in_dec Nat.eq_dec v path) as [C|C]; [left; auto | right; tauto].
+Qed.
+
+Lemma uvisit_sub : forall d g cur path h, bc_visit_und d g cur path = Some h -> sub h g.
+Proof.
+  induction d as [|d IH]; intros g cur path h H; [discriminate|].
+  rewrite bc_visit_und_unfold in H. destruct (edge_gone g path).
+  - inversion H; subst. apply sub_refl.
+  - cbv zeta in H. destruct (uvisit_scan_spec g cur path) as [L [HE _]]. cbv zeta in L, HE.
+    set (g1 := fst (bc_scan_und cur (prev_of path) path (row g cur) g)) in *.
+    assert (S1 : sub g1 g) by (split; auto; intros u v Huv; apply HE in Huv; tauto).
+    refine (ofold_inv _ (fun a => sub a g) _ g1 h S1 _ H).
+    intros x v y _ Hx Hy. unfold uvisit_step in Hy. apply IH in Hy. eapply sub_trans; eauto.
+Qed.
+
+(** A call whose last edge has gone returns the graph unchanged. *)
+Lemma edge_gone_app g q a b : edge_gone g (q ++ [a; b]) = negb (edgeb g a b).
+Proof. unfold edge_gone. rewrite rev_app_distr. reflexivity. Qed.
+
+Lemma uvisit_gone d g q a b h :
+  ~ edge g a b -> bc_visit_und d g b (q ++ [a; b]) = Some h -> h = g.
+Proof.
+  intros N H. destruct d as [|d]; [discriminate|]. rewrite bc_visit_und_unfold, edge_gone_app in H.
+  destruct (edgeb g a b) eqn:E; [apply edgeb_true in E; contradiction|]. simpl in H. congruence.
+Qed.
+
+Definition ugood (g : graph) (path : list nat) (cur : nat) : Prop :=
+  path <> [] /\ last path 0 = cur /\ NoDup path /\ chain (edge g) path.
+
+Definition uframe (path : list nat) (cur : nat) (g h : graph) : Prop :=
+  sub h g /\ sym h /\
+  (forall u v, edge g u v -> ~ edge h u v -> u = cur \/ v = cur \/ ~ In u path \/ ~ In v path) /\
+  (forall a b, reach (edge g) a b -> reach (edge h) a b).
+
+Lemma reach_repair2 (E E' : nat -> nat -> Prop) :
+  (forall u v, E u v -> reach E' u v) -> forall a b, reach E a b -> reach E' a b.
+Proof.
+  intros H a b R. induction R as [a|a x b Hax Hxb IH]; [apply reach_refl|].
+  eapply reach_trans; [apply H; exact Hax | exact IH].
+Qed.
+
+Lemma chain_consec (E F : nat -> nat -> Prop) : forall p,
+  (forall l1 a b l2, p = l1 ++ a :: b :: l2 -> E a b -> F a b) -> chain E p -> chain F p.
+Proof.
+  induction p as [|x t IH]; intros H Hc; [exact I|].
+  apply chain_cons in Hc. destruct Hc as [A B]. apply chain_cons. split.
+  - intros Hne. destruct t as [|y t']; [congruence|]. cbn [hd] in *.
+    apply (H [] x y t'); [reflexivity|]. apply A. discriminate.
+  - apply IH; auto. intros l1 a b l2 E1 Hab. apply (H (x :: l1) a b l2); [rewrite E1; reflexivity | exact Hab].
+Qed.
+
+Lemma chain_reach_to_last (E : nat -> nat -> Prop) p v : chain E p -> In v p -> reach E v (last p 0).
+Proof.
+  intros Hc Hv. destruct (in_split _ _ Hv) as [l1 [l2 Ep]]. subst p.
+  apply chain_app in Hc. destruct Hc as [_ [Hc _]]. rewrite last_app_cons. apply chain_reach_last. exact Hc.
+Qed.
+
+(** On a duplicate-free path ending in [cur], the only chain edge that touches [cur] enters it from the
+    predecessor. *)
+Lemma consec_last (path : list nat) l1 a b l2 :
+  NoDup path -> path = l1 ++ a :: b :: l2 ->
+  a <> last path 0 /\ (b = last path 0 -> is_prev (prev_of path) a = true).
+Proof.
+  intros Hnd Ep. pose proof Hnd as Hnd'. rewrite Ep in Hnd'. apply NoDup_app_r in Hnd'.
+  inversion Hnd' as [|x0 t0 Hni Hnd2]. split.
+  - intros Ea. apply Hni.
+    assert (El : last path 0 = last (b :: l2) 0) by (rewrite Ep, last_app_cons; reflexivity).
+    rewrite Ea, El. apply last_In. discriminate.
+  - intros Eb. destruct l2 as [|c l2'].
+    + rewrite Ep. rewrite prev_of_app. simpl. apply Nat.eqb_refl.
+    + exfalso. inversion Hnd2 as [|x1 t1 Hni2 _]. apply Hni2.
+      assert (El : last path 0 = last (c :: l2') 0).
+      { rewrite Ep. replace (l1 ++ a :: b :: c :: l2') with ((l1 ++ [a; b]) ++ c :: l2') by (rewrite <- app_assoc; reflexivity).
+        apply last_app_cons. }
+      rewrite Eb, El. apply last_In. discriminate.
+Qed.
+
+Lemma ugood_last_in g path cur : ugood g path cur -> In cur path.
+Proof. intros [Hne [Hl _]]. rewrite <- Hl. apply last_In. exact Hne. Qed.
+
+Lemma uscan_good g path cur :
+  ugood g path cur -> ugood (fst (bc_scan_und cur (prev_of path) path (row g cur) g)) path cur.
+Proof.
+  intros Hg. destruct (uvisit_scan_spec g cur path) as [L [HE HP]]. cbv zeta in L, HE, HP.
+  pose proof Hg as [Hne [Hl [Hnd Hc]]]. split; auto. split; auto. split; auto.
+  eapply chain_consec; [|exact Hc]. intros l1 a b l2 Ep Hab.
+  destruct (consec_last path l1 a b l2 Hnd Ep) as [Na Nb]. rewrite Hl in Na, Nb.
+  apply HE. split; auto. split.
+  - intros [E _]. contradiction.
+  - intros [E [_ [P _]]]. rewrite (Nb E) in P. discriminate.
+Qed.
+
+Definition ukids_inv (path : list nat) (g1 a : graph) : Prop :=
+  sub a g1 /\ sym a /\
+  (forall u v, edge g1 u v -> ~ edge a u v -> ~ In u path \/ ~ In v path) /\
+  (forall p q, reach (edge g1) p q -> reach (edge a) p q).
+
+Lemma ukids_good path cur g1 x c :
+  ugood g1 path cur -> ukids_inv path g1 x -> edge x cur c -> ~ In c path -> ugood x (path ++ [c]) c.
+Proof.
+  intros [Hne [Hl [Hnd Hc]]] [Sx [_ [Fx _]]] Ecx C3. split; [destruct path; discriminate|].
+  split; [apply last_last|]. split.
+  - apply NoDup_app_intro; auto; [constructor; [intros []|constructor]|].
+    intros z Hz [Hz'|[]]. subst. contradiction.
+  - apply chain_app. split; [|split; [simpl; auto|]].
+    + eapply chain_mono_In; [|exact Hc]. intros a b Ha Hb Hab.
+      destruct (edge_dec x a b) as [Y|N]; auto. destruct (Fx a b Hab N); contradiction.
+    + intros _ _. cbn [hd]. rewrite Hl. exact Ecx.
+Qed.
+
+Lemma ukids_step path g1 x c y :
+  ~ In c path -> ukids_inv path g1 x -> uframe (path ++ [c]) c x y -> ukids_inv path g1 y.
+Proof.
+  intros C3 [Sx [Yx [Fx Rx]]] [Sy [Yy [Fy Ry]]].
+  split; [eapply sub_trans; eauto|]. split; auto. split.
+  - intros u v A B. destruct (edge_dec x u v) as [Y|N]; [|apply Fx; auto].
+    destruct (Fy u v Y B) as [E|[E|[E|E]]].
+    + left. subst u. exact C3.
+    + right. subst v. exact C3.
+    + left. intros Hu. apply E. apply in_or_app. left. exact Hu.
+    + right. intros Hv. apply E. apply in_or_app. left. exact Hv.
+  - intros p q Hpq. apply Ry. apply Rx. exact Hpq.
+Qed.
+
+Lemma path_split_last (path : list nat) cur : path <> [] -> last path 0 = cur -> path = removelast path ++ [cur].
+Proof. intros Hne Hl. rewrite <- Hl. apply app_removelast_last. exact Hne. Qed.
+
+Lemma uvisit_frame : forall d g cur path h,
+  sym g -> ugood g path cur -> bc_visit_und d g cur path = Some h -> uframe path cur g h.
+Proof.
+  induction d as [|d IH]; intros g cur path h Hsym Hg H; [discriminate|].
+  rewrite bc_visit_und_unfold in H. destruct (edge_gone g path).
+  { inversion H; subst. split; [apply sub_refl|]. split; [exact Hsym|]. split; [intros u v A B; contradiction | auto]. }
+  cbv zeta in H. destruct (uvisit_scan_spec g cur path) as [L [HE HP]]. cbv zeta in L, HE, HP.
+  pose proof (uscan_good g path cur Hg) as Hg1.
+  set (r := bc_scan_und cur (prev_of path) path (row g cur) g) in *.
+  set (g1 := fst r) in *.
+  pose proof Hg as [Hne [Hl [Hnd Hc]]].
+  pose proof (ugood_last_in _ _ _ Hg) as Hcur.
+  assert (SA : sub g1 g) by (split; auto; intros u v Huv; apply HE in Huv; tauto).
+  assert (YA : sym g1).
+  { intros u v Huv. apply HE in Huv. destruct Huv as [A [B C]]. apply HE. split; auto. }
+  assert (FA : forall u v, edge g u v -> ~ edge g1 u v ->
+                 (u = cur /\ Rv g path cur v) \/ (v = cur /\ Rv g path cur u)).
+  { intros u v A B.
+    destruct (Nat.eq_dec u cur) as [E1|E1]; [destruct (Rv_dec g path cur v) as [R1|R1]; [left; auto|]|];
+    (destruct (Nat.eq_dec v cur) as [E2|E2]; [destruct (Rv_dec g path cur u) as [R2|R2]; [right; auto|]|]);
+    exfalso; apply B; apply HE; split; auto; tauto. }
+  assert (Hto : forall v, In v path -> reach (edge g1) v cur).
+  { intros v Hv. destruct Hg1 as [_ [_ [_ Hc1]]]. rewrite <- Hl. apply chain_reach_to_last; auto. }
+  assert (RA : forall p q, reach (edge g) p q -> reach (edge g1) p q).
+  { apply reach_repair2. intros u v Huv. destruct (edge_dec g1 u v) as [Y|N]; [apply reach_one; exact Y|].
+    destruct (FA u v Huv N) as [[E [_ [_ P]]]|[E [_ [_ P]]]]; subst.
+    - apply reach_sym; [exact YA|]. apply Hto. exact P.
+    - apply Hto. exact P. }
+  assert (HI : ukids_inv path g1 h).
+  { refine (ofold_inv _ (ukids_inv path g1) _ g1 h _ _ H).
+    - split; [apply sub_refl|]. split; [exact YA|]. split; [intros u v A B; contradiction | auto].
+    - intros x c y Hc' Ix Hy. apply in_rev in Hc'. apply HP in Hc'. destruct Hc' as [C1 C3].
+      unfold uvisit_step in Hy. destruct (edge_dec x cur c) as [Y|N].
+      + pose proof (ukids_good path cur g1 x c Hg1 Ix Y C3) as Hgc.
+        destruct Ix as [Sx [Yx [Fx Rx]]].
+        eapply ukids_step; eauto. split; auto.
+      + rewrite (path_split_last path cur Hne Hl), <- app_assoc in Hy. cbn [app] in Hy.
+        apply uvisit_gone in Hy; auto. subst y. exact Ix. }
+  destruct HI as [Sh [Yh [Fh Rh]]].
+  split; [eapply sub_trans; eauto|]. split; auto. split.
+  - intros u v A B. destruct (edge_dec g1 u v) as [Y|N].
+    + right. right. apply Fh; auto.
+    + destruct (FA u v A N) as [[E _]|[E _]]; auto.
+  - intros p q Hpq. apply Rh. apply RA. exact Hpq.
+Qed.
+
+Lemma uvisit_total : forall d g cur path,
+  wf_graph g -> NoDup path -> (forall x, In x path -> x < length g) -> length g < d + length path ->
+  exists h, bc_visit_und d g cur path = Some h.
+Proof.
+  induction d as [|d IH]; intros g cur path Hwf Hnd Hlt Hd.
+  { assert (Hincl : incl path (seq 0 (length g))) by (intros x Hx; apply in_seq; specialize (Hlt x Hx); lia).
+    pose proof (NoDup_incl_length Hnd Hincl) as H. rewrite seq_length in H. lia. }
+  rewrite bc_visit_und_unfold. destruct (edge_gone g path); [eexists; reflexivity|].
+  cbv zeta. destruct (uvisit_scan_spec g cur path) as [L [HE HP]]. cbv zeta in L, HE, HP.
+  set (r := bc_scan_und cur (prev_of path) path (row g cur) g) in *.
+  set (g1 := fst r) in *.
+  assert (SA : sub g1 g) by (split; auto; intros u v Huv; apply HE in Huv; tauto).
+  apply (ofold_total _ (fun a => sub a g)); [exact SA|].
+  intros x c Hc' Sx. apply in_rev in Hc'. apply HP in Hc'. destruct Hc' as [C1 C3].
+  assert (Lx : length x = length g) by (destruct Sx; auto).
+  destruct (IH x c (path ++ [c])) as [y Hy].
+  - eapply wf_sub; eauto.
+  - apply NoDup_app_intro; auto; [constructor; [intros []|constructor]|].
+    intros z Hz [Hz'|[]]. subst. contradiction.
+  - intros z Hz. rewrite Lx. apply in_app_or in Hz. destruct Hz as [Hz|[Hz|[]]]; auto. subst z. eapply Hwf; eauto.
+  - rewrite app_length, Lx. simpl. lia.
+  - exists y. split; auto. unfold uvisit_step. apply uvisit_sub in Hy. eapply sub_trans; eauto.
+Qed.
+
+Lemma ofold_uvisit_sub d path l a h : ofold (uvisit_step d path) l (Some a) = Some h -> sub h a.
+Proof.
+  intros H. refine (ofold_inv _ (fun x => sub x a) _ a h (sub_refl a) _ H).
+  intros x v y _ Hx Hy. unfold uvisit_step in Hy. apply uvisit_sub in Hy. eapply sub_trans; eauto.
+Qed.
+
+Lemma uvisit_complete : forall d g cur path h,
+  path <> [] -> last path 0 = cur -> bc_visit_und d g cur path = Some h ->
+  forall h', sub h' h -> forall ext,
+    chain (edge h') (path ++ ext) -> NoDup (path ++ ext) ->
+    forall v, In v (path ++ ext) -> is_prev (prev_of (path ++ ext)) v = false ->
+              ~ edge h' (last (path ++ ext) 0) v.
+Proof.
+  induction d as [|d IH]; intros g cur path h Hne Hl H h' Hs ext Hch Hnd v Hv Hvp Hedge; [discriminate|].
+  rewrite bc_visit_und_unfold in H. destruct (edge_gone g path) eqn:Egone.
+  { inversion H; subst h. apply edge_gone_spec in Egone. destruct Egone as [q [a [b [Ep Nab]]]].
+    apply Nab. apply Hs. rewrite Ep in Hch. rewrite <- !app_assoc in Hch.
+    apply chain_app in Hch. destruct Hch as [_ [Hch _]]. simpl in Hch. tauto. }
+  cbv zeta in H. destruct (uvisit_scan_spec g cur path) as [L [HE HP]]. cbv zeta in L, HE, HP.
+  set (r := bc_scan_und cur (prev_of path) path (row g cur) g) in *.
+  set (g1 := fst r) in *.
+  pose proof (ofold_uvisit_sub _ _ _ _ _ H) as Sh1.
+  assert (S1 : forall u w, edge h' u w -> edge g1 u w).
+  { intros u w A. apply Sh1. apply Hs. exact A. }
+  destruct ext as [|c ext'].
+  - rewrite app_nil_r in *. rewrite Hl in Hedge. apply S1 in Hedge. apply HE in Hedge.
+    destruct Hedge as [A [B _]]. apply B. split; auto. split; auto.
+  - assert (Ec : edge h' cur c).
+    { apply chain_app in Hch. destruct Hch as [_ [_ Hlink]]. rewrite Hl in Hlink. apply Hlink; [exact Hne | discriminate]. }
+    assert (Cp : ~ In c path).
+    { intros Hin. eapply (NoDup_app_disjoint path (c :: ext') c); eauto. left; reflexivity. }
+    assert (Hpush : In c (rev (snd r))).
+    { apply in_rev. rewrite rev_involutive. apply HP. split; [|auto].
+      apply S1 in Ec. apply HE in Ec. tauto. }
+    destruct (in_split _ _ Hpush) as [l1 [l2 El]]. rewrite El in H.
+    destruct (ofold_split _ _ _ _ _ _ H) as [x [y [H1 [H2 H3]]]].
+    unfold uvisit_step in H2. apply ofold_uvisit_sub in H3.
+    assert (Epath : (path ++ [c]) ++ ext' = path ++ c :: ext') by (rewrite <- app_assoc; reflexivity).
+    refine (IH x c (path ++ [c]) y _ (last_last _ _ _) H2 h' (sub_trans _ _ _ Hs H3) ext' _ _ v _ _ _).
+    + destruct path; discriminate.
+    + rewrite Epath. exact Hch.
+    + rewrite Epath. exact Hnd.
+    + rewrite Epath. exact Hv.
+    + rewrite Epath. exact Hvp.
+    + rewrite Epath. exact Hedge.
+Qed.
+
+Lemma NoDup_app_l {A} (l l' : list A) : NoDup (l ++ l') -> NoDup l.
+Proof.
+  induction l as [|x t IH]; intros H; [constructor|]. simpl in H. inversion H as [|? ? Hx Ht]; subst.
+  constructor; auto. intros Hin. apply Hx. apply in_or_app. left. exact Hin.
+Qed.
+
+Lemma two_last (l : list nat) : 2 <= length l -> exists l0 a b, l = l0 ++ [a; b].
+Proof.
+  intros H. destruct (rev l) as [|b [|a r]] eqn:E.
+  - apply (f_equal (@length nat)) in E. rewrite rev_length in E. simpl in E. lia.
+  - apply (f_equal (@length nat)) in E. rewrite rev_length in E. simpl in E. lia.
+  - exists (rev r), a, b. rewrite <- (rev_involutive l), E. simpl. rewrite <- app_assoc. reflexivity.
+Qed.
+
+(** Undirected version: if no duplicate-free path from [s] has an edge from its last node back to a
+    path node other than the predecessor, then no simple cycle on >= 3 nodes is reachable from [s]. *)
+Lemma no_back_edge_no_ucycle (h : graph) (s : nat) (c : list nat) :
+  (forall ext v, chain (edge h) ([s] ++ ext) -> NoDup ([s] ++ ext) -> In v ([s] ++ ext) ->
+                 is_prev (prev_of ([s] ++ ext)) v = false -> ~ edge h (last ([s] ++ ext) 0) v) ->
+  simple_cycle (edge h) c -> 3 <= length c -> reach (edge h) s (hd 0 c) -> False.
+Proof.
+  intros NB Hcy Hlen Hr.
+  destruct (reach_spath _ _ _ Hr) as [p [P1 [P2 [P3 [P4 P5]]]]].
+  assert (Hx0 : In (hd 0 c) c) by (destruct c; [simpl in Hlen; lia | left; reflexivity]).
+  destruct (split_first_in c p) as [p1 [z [p2 [Ep [Hz Hp1]]]]].
+  { exists (hd 0 c). split; auto. rewrite <- P2. apply last_In. exact P3. }
+  destruct (in_split z c Hz) as [l1 [l2 Ec]].
+  pose proof (simple_cycle_rot (edge h) (length l1) c Hcy) as Hrot.
+  assert (Erot : rot (length l1) c = z :: l2 ++ l1).
+  { unfold rot. rewrite Ec, skipn_app_exact, firstn_app_exact. reflexivity. }
+  assert (Hperm : forall x, In x (z :: l2 ++ l1) -> In x c).
+  { intros x Hx. rewrite <- Erot in Hx. eapply Permutation_in; [apply rot_perm | exact Hx]. }
+  rewrite Erot in Hrot. destruct Hrot as [_ [Hnd' Hch']].
+  destruct (two_last (l2 ++ l1)) as [t0 [a [b Et]]].
+  { rewrite Ec in Hlen. rewrite app_length in *. simpl in Hlen. lia. }
+  rewrite Et in *.
+  (* the path: prefix up to the first cycle node, then once around the cycle *)
+  set (Q := p1 ++ z :: t0 ++ [a; b]).
+  assert (HQs : exists ext, Q = [s] ++ ext).
+  { unfold Q. destruct p1 as [|q0 p1']; rewrite Ep in P1; simpl in P1; subst.
+    - eexists; reflexivity.
+    - eexists; reflexivity. }
+  destruct HQs as [ext EQ].
+  assert (Hch1 : chain (edge h) (z :: t0 ++ [a; b]) /\ edge h b z).
+  { change ((z :: t0 ++ [a; b]) ++ [hd 0 (z :: t0 ++ [a; b])]) with ((z :: t0 ++ [a; b]) ++ [z]) in Hch'.
+    apply chain_app in Hch'. destruct Hch' as [A [_ B]]. split; auto.
+    specialize (B ltac:(discriminate) ltac:(discriminate)). cbn [hd] in B.
+    replace (last (z :: t0 ++ [a; b]) 0) with b in B; auto.
+    change (z :: t0 ++ [a; b]) with ((z :: t0) ++ [a; b]). rewrite last_app_cons. reflexivity. }
+  destruct Hch1 as [Hch1 Hbz].
+  assert (HQc : chain (edge h) Q).
+  { unfold Q. rewrite Ep in P5. apply chain_app in P5. destruct P5 as [A [_ B]].
+    apply chain_app. split; auto. split; auto. intros H1 _. apply B; [exact H1 | discriminate]. }
+  assert (HQn : NoDup Q).
+  { unfold Q. apply NoDup_app_intro; auto.
+    - rewrite Ep in P4. apply NoDup_app_l in P4. exact P4.
+    - intros x Hx Hx'. apply (Hp1 x Hx). apply Hperm. exact Hx'. }
+  assert (HQl : last Q 0 = b).
+  { unfold Q. replace (p1 ++ z :: t0 ++ [a; b]) with ((p1 ++ z :: t0) ++ [a; b]) by (rewrite <- app_assoc; reflexivity).
+    rewrite last_app_cons. reflexivity. }
+  assert (HQp : is_prev (prev_of Q) z = false).
+  { unfold Q. replace (p1 ++ z :: t0 ++ [a; b]) with ((p1 ++ z :: t0) ++ [a; b]) by (rewrite <- app_assoc; reflexivity).
+    rewrite prev_of_app. simpl. apply Nat.eqb_neq. intros E. subst a.
+    inversion Hnd' as [|? ? Hni _]. apply Hni. apply in_or_app. right. left. reflexivity. }
+  apply (NB ext z); rewrite <- EQ; auto.
+  - unfold Q. apply in_or_app. right. left. reflexivity.
+  - rewrite HQl. exact Hbz.
+Qed.
+
+(** * The loop over the start nodes *)
+
+Definition ustarts (vo : bool) (comp root : list nat) : list nat :=
+  if vo then root ++ other_starts comp root else root.
+Definition ustep (n : nat) : graph -> nat -> option graph := fun ga s => bc_visit_und (S n) ga s [s].
+
+Lemma break_cycles_und_unfold vo g root directed comp1 comp2 :
+  resolve_directed g directed = Ok false ->
+  break_cycles vo g root directed comp1 comp2 =
+  match is_acyclic g directed comp1 with
+  | Err e => Err e
+  | Ok true => Ok g
+  | Ok false =>
+      if negb (forallb (fun r => r <? length g) root) then Err IndexError
+      else if sumn (map (fun r => length (row g r)) root) =? 0 then Err ValueError
+      else match ofold (ustep (length g)) (ustarts vo comp2 root) (Some (drop_loops g)) with
+           | Some r => Ok r
+           | None => Err OutOfFuel
+           end
+  end.
+Proof.
+  intros H. unfold break_cycles. destruct (is_acyclic g directed comp1) as [[|]|]; auto.
+  destruct (negb (forallb (fun r => r <? length g) root)); auto.
+  destruct (sumn (map (fun r => length (row g r)) root) =? 0); auto.
+  rewrite H. reflexivity.
+Qed.
+
+Definition uloop_inv (g0 a : graph) : Prop :=
+  sub a g0 /\ sym a /\ forall p q, reach (edge g0) p q -> reach (edge a) p q.
+
+Lemma ugood_single g s : ugood g [s] s.
+Proof.
+  split; [discriminate|]. split; [reflexivity|]. split; [constructor; [intros []|constructor] | simpl; auto].
+Qed.
+
+Lemma uloop_frame n starts (g0 h : graph) :
+  sym g0 -> ofold (ustep n) starts (Some g0) = Some h -> uloop_inv g0 h.
+Proof.
+  intros Hsym H. refine (ofold_inv _ (uloop_inv g0) _ g0 h _ _ H).
+  - split; [apply sub_refl|]. split; auto.
+  - intros x s y _ [Sx [Yx Rx]] Hy. unfold ustep in Hy.
+    destruct (uvisit_frame _ _ _ _ _ Yx (ugood_single x s) Hy) as [Sy [Yy [_ Ry]]].
+    split; [eapply sub_trans; eauto|]. split; auto.
+Qed.
+
+Lemma uloop_total n starts (g0 : graph) :
+  wf_graph g0 -> (forall s, In s starts -> s < length g0) -> length g0 <= n ->
+  exists h, ofold (ustep n) starts (Some g0) = Some h.
+Proof.
+  intros Hwf Hs Hn. apply (ofold_total _ (fun a => sub a g0)); [apply sub_refl|].
+  intros x s Hin Sx. assert (Lx : length x = length g0) by (destruct Sx; auto).
+  destruct (uvisit_total (S n) x s [s]) as [y Hy].
+  - eapply wf_sub; eauto.
+  - constructor; [intros []|constructor].
+  - intros z [Hz|[]]. subst. rewrite Lx. auto.
+  - simpl. lia.
+  - exists y. split; auto. apply uvisit_sub in Hy. eapply sub_trans; eauto.
+Qed.
+
+Lemma uloop_no_cycle n starts (g0 h : graph) s c :
+  sym g0 -> ofold (ustep n) starts (Some g0) = Some h -> In s starts ->
+  simple_cycle (edge h) c -> 3 <= length c -> reach (edge g0) s (hd 0 c) -> False.
+Proof.
+  intros Hsym H Hs Hcy Hlen Hr. destruct (in_split _ _ Hs) as [S1 [S2 ES]]. rewrite ES in H.
+  destruct (ofold_split _ _ _ _ _ _ H) as [ga [gb [H1 [H2 H3]]]].
+  destruct (uloop_frame _ _ _ _ Hsym H1) as [Sa [Ya Ra]].
+  unfold ustep in H2.
+  destruct (uvisit_frame _ _ _ _ _ Ya (ugood_single ga s) H2) as [Sb [Yb [_ Rb]]].
+  destruct (uloop_frame _ _ _ _ Yb H3) as [Sh _].
+  apply (no_back_edge_no_ucycle gb s c); auto.
+  - intros ext v A B C D.
+    exact (uvisit_complete _ ga s [s] gb ltac:(discriminate) eq_refl H2 gb (sub_refl gb) ext A B v C D).
+  - eapply simple_cycle_ext; [|exact Hcy]. apply Sh.
+Qed.
+
+(** With [visit_others] every component contains a start node. *)
+Lemma starts_cover comp root x :
+  x < length comp -> (forall r, In r root -> r < length comp) ->
+  exists s, In s (ustarts true comp root) /\ s < length comp /\ nthn comp s = nthn comp x.
+Proof.
+  intros Hx Hroot. unfold ustarts. set (l := nthn comp x).
+  destruct (memn l (map (nthn comp) root)) eqn:E.
+  - apply memn_In in E. apply in_map_iff in E. destruct E as [r [Er Hr]]. exists r.
+    split; [apply in_or_app; left; exact Hr|]. split; auto.
+  - assert (Hl : In l comp) by (apply nthn_In; exact Hx).
+    destruct (first_with_label_spec comp l Hl) as [A B].
+    exists (first_with_label comp l). split; [|split; auto].
+    apply in_or_app. right. unfold other_starts. apply in_map. apply filter_In. split.
+    + apply np_unique_In. exact Hl.
+    + fold l. rewrite E. reflexivity.
+Qed.
+
+Lemma other_starts_lt comp root s : In s (other_starts comp root) -> s < length comp.
+Proof.
+  unfold other_starts. intros H. apply in_map_iff in H. destruct H as [l [El Hl]]. subst s.
+  apply filter_In in Hl. destruct Hl as [Hl _]. apply (proj1 (np_unique_In comp l)) in Hl.
+  apply (first_with_label_spec comp l Hl).
+Qed.
+
+Lemma drop_loops_sym g : sym g -> sym (drop_loops g).
+Proof. intros H u v Huv. apply drop_loops_edge in Huv. apply drop_loops_edge. destruct Huv. split; auto. Qed.
+
+(** * break_cycles, undirected branch: the general theorem *)
+
+Theorem break_cycles_undirected_correct_lemma
+        (vo : bool) (g : graph) (root : list nat) (directed : option bool) (comp1 comp2 : list nat) :
+  wf_graph g -> (forall u, NoDup (row g u)) ->
+  resolve_directed g directed = Ok false ->
+  components_contract g false comp1 ->
+  components_contract (drop_loops g) false comp2 ->
+  break_cycles vo g root directed comp1 comp2 <> Err OutOfFuel /\
+  forall h, break_cycles vo g root directed comp1 comp2 = Ok h ->
+    length h = length g /\
+    (forall u v, edge h u v -> edge g u v /\ u <> v) /\
+    (forall u v, edge h u v -> edge h v u) /\
+    (forall c s, ucycle h c -> In s (ustarts vo comp2 root) -> ~ reach (edge g) s (hd 0 c)) /\
+    (vo = true -> forall c, ~ ucycle h c) /\
+    (forall a b, reach (edge g) a b -> reach (edge h) a b).
+Proof.
+  intros Hwf Hrows Hres Hc1 Hc2.
+  rewrite (break_cycles_und_unfold vo g root directed comp1 comp2 Hres).
+  pose proof (proj1 (is_symmetric_spec g) (resolve_directed_false g directed Hres)) as Hsym.
+  set (g0 := drop_loops g).
+  assert (Hwf0 : wf_graph g0) by (apply (wf_sub g0 g Hwf); apply drop_loops_sub).
+  assert (Hl0 : length g0 = length g) by apply drop_loops_length.
+  assert (Hsym0 : sym g0) by (apply drop_loops_sym; exact Hsym).
+  destruct (is_acyclic g directed comp1) as [[|]|e] eqn:Eac.
+  - split; [discriminate|]. intros h Hh. inversion Hh; subst h.
+    pose proof (proj1 (is_acyclic_undirected_lemma g directed comp1 true Hwf Hrows Hc1 Hres Eac) eq_refl) as Hno.
+    split; auto. split; [|split; [exact Hsym|split; [|split]]].
+    + intros u v Huv. split; auto. intros E. subst v. apply Hno. exists [u]. split; [|simpl; lia].
+      split; [discriminate|]. split; [constructor; [intros []|constructor]|]. simpl. auto.
+    + intros c s Hc. exfalso. apply Hno. exists c. exact Hc.
+    + intros _ c Hc. apply Hno. exists c. exact Hc.
+    + auto.
+  - destruct (negb (forallb (fun r => r <? length g) root)) eqn:Eroot; [split; [discriminate|intros h Hh; discriminate]|].
+    destruct (sumn (map (fun r => length (row g r)) root) =? 0); [split; [discriminate|intros h Hh; discriminate]|].
+    apply negb_false_iff in Eroot. rewrite forallb_forall in Eroot.
+    assert (Hroot : forall r, In r root -> r < length g) by (intros r Hr; apply Nat.ltb_lt; auto).
+    pose proof Hc2 as [Hlen2 Hcc2]. fold g0 in Hlen2, Hcc2.
+    destruct (uloop_total (length g) (ustarts vo comp2 root) g0 Hwf0) as [h Hh].
+    { intros s Hs. unfold ustarts in Hs. destruct vo; [apply in_app_or in Hs; destruct Hs as [Hs|Hs]|].
+      - rewrite Hl0. auto.
+      - rewrite <- Hlen2. eapply other_starts_lt; eauto.
+      - rewrite Hl0. auto. }
+    { lia. }
+    rewrite Hh. split; [discriminate|]. intros h' Eh. inversion Eh; subst h'. clear Eh.
+    destruct (uloop_frame _ _ _ _ Hsym0 Hh) as [[Lh Sh] [Yh Rh]].
+    assert (Hgen : forall c s, ucycle h c -> In s (ustarts vo comp2 root) -> ~ reach (edge g0) s (hd 0 c)).
+    { intros c s [Hcy Hn2] Hs Hr.
+      assert (Hlen : 3 <= length c).
+      { destruct c as [|x [|y [|z t]]]; simpl in *; try lia.
+        - destruct Hcy as [Hn _]. congruence.
+        - destruct Hcy as [_ [_ Hch]]. simpl in Hch. destruct Hch as [Hxx _]. apply Sh in Hxx.
+          apply drop_loops_edge in Hxx. tauto. }
+      exact (uloop_no_cycle _ _ _ _ s c Hsym0 Hh Hs Hcy Hlen Hr). }
+    split; [congruence|]. split; [|split; [exact Yh|split; [|split]]].
+    + intros u v Huv. apply Sh in Huv. apply drop_loops_edge in Huv. exact Huv.
+    + intros c s Hc Hs Hr. apply (Hgen c s Hc Hs). apply reach_drop_loops. exact Hr.
+    + intros Evo c Hc. subst vo. pose proof Hc as [[Hne [_ Hch]] _].
+      destruct c as [|x t]; [congruence|].
+      (* x has an outgoing edge of h, hence is a node *)
+      assert (Hx : x < length g0).
+      { rewrite <- Lh. destruct t as [|y t'].
+        - simpl in Hch. eapply row_nonempty_lt. apply (proj1 Hch).
+        - simpl in Hch. eapply row_nonempty_lt. apply (proj1 Hch). }
+      destruct (starts_cover comp2 root x) as [s [Hs [Hsl Es]]]; [lia | intros r Hr; rewrite Hlen2, Hl0; auto |].
+      apply (Hgen (x :: t) s Hc Hs). cbn [hd].
+      assert (Hw : wconn g0 s x) by (apply (Hcc2 s x); [lia | exact Hx | exact Es]).
+      eapply reach_mono; [|exact Hw]. intros a b [A|A]; auto.
+    + intros a b Hab. apply Rh. apply reach_drop_loops. exact Hab.
+  - exfalso. unfold is_acyclic in Eac. rewrite Hres in Eac. destruct (has_loops g); discriminate.
+Qed.
+
+Theorem break_cycles_undirected_total_lemma
+        (vo : bool) (g : graph) (root : list nat) (directed : option bool) (comp1 comp2 : list nat) :
+  wf_graph g -> resolve_directed g directed = Ok false -> length comp2 = length g ->
+  (forall r, In r root -> r < length g) -> 0 < out_degree g root ->
+  exists h, break_cycles vo g root directed comp1 comp2 = Ok h.
+Proof.
+  intros Hwf Hres Hlen Hroot Hdeg. rewrite (break_cycles_und_unfold vo g root directed comp1 comp2 Hres).
+  destruct (is_acyclic g directed comp1) as [[|]|e] eqn:Eac.
+  - eexists; reflexivity.
+  - assert (E1 : forallb (fun r => r <? length g) root = true).
+    { apply forallb_forall. intros r Hr. apply Nat.ltb_lt. auto. }
+    rewrite E1. cbn [negb].
+    assert (E2 : sumn (map (fun r => length (row g r)) root) =? 0 = false).
+    { apply Nat.eqb_neq. unfold out_degree in Hdeg. lia. }
+    rewrite E2.
+    destruct (uloop_total (length g) (ustarts vo comp2 root) (drop_loops g)) as [h Hh].
+    + apply (wf_sub _ g Hwf). apply drop_loops_sub.
+    + intros s Hs. rewrite drop_loops_length. unfold ustarts in Hs.
+      destruct vo; [apply in_app_or in Hs; destruct Hs as [Hs|Hs]|]; auto.
+      rewrite <- Hlen. eapply other_starts_lt; eauto.
+    + rewrite drop_loops_length. lia.
+    + rewrite Hh. eexists; reflexivity.
+  - exfalso. unfold is_acyclic in Eac. rewrite Hres in Eac. destruct (has_loops g); discriminate.
+Qed.
+
+(** * The executable contract checker is sound (weak connectivity) — used for non-vacuity *)
+Lemma symmetrise_length g : length (symmetrise g) = length g.
+Proof. unfold symmetrise, nodes. rewrite map_length, seq_length. reflexivity. Qed.
+
+Lemma symmetrise_edge g u v : wf_graph g -> (edge (symmetrise g) u v <-> sedge g u v).
+Proof.
+  intros Hwf. unfold sedge. unfold edge at 1. destruct (Nat.lt_ge_cases u (length g)) as [Hu|Hu].
+  - unfold symmetrise, nodes. unfold row at 1.
+    rewrite (nth_map_seq (fun u => row g u ++ filter (fun v => edgeb g v u) (seq 0 (length g))) (length g) u [] Hu).
+    rewrite in_app_iff, filter_In, in_seq, edgeb_true. unfold edge. split; [tauto|].
+    intros [A|A]; auto. right. split; auto. pose proof (row_nonempty_lt _ _ _ A). lia.
+  - rewrite row_oob by (rewrite symmetrise_length; exact Hu). unfold edge. rewrite (row_oob g u Hu). simpl.
+    split; [tauto|]. intros [[]|A]. apply Hwf in A. lia.
+Qed.
+
+Lemma wcc_contract_b_sound g comp :
+  wf_graph g -> components_contract_b g false comp = true -> components_contract g false comp.
+Proof.
+  intros Hwf. unfold components_contract_b. cbv zeta. intros H. apply andb_true_iff in H. destruct H as [H1 H2].
+  apply Nat.eqb_eq in H1. split; auto. intros u v Hu Hv.
+  rewrite forallb_forall in H2. specialize (H2 u (proj2 (nodes_In g u) Hu)).
+  rewrite forallb_forall in H2. specialize (H2 v (proj2 (nodes_In g v) Hv)).
+  apply Bool.eqb_prop in H2. unfold conn_matrix, nodes in H2.
+  rewrite (nth_map_seq (fun u0 => reach_from (symmetrise g) [u0]) (length g) u [] Hu) in H2.
+  assert (R : nthb (reach_from (symmetrise g) [u]) v = true <-> wconn g u v).
+  { rewrite (reach_from_iff (symmetrise g) [u] v) by (rewrite symmetrise_length; exact Hv). unfold wconn. split.
+    - intros [s [[E|[]] [_ Hr]]]. subst. eapply reach_mono; [|exact Hr]. intros a b. apply symmetrise_edge. exact Hwf.
+    - intros Hr. exists u. split; [left; reflexivity|]. split; [rewrite symmetrise_length; exact Hu|].
+      eapply reach_mono; [|exact Hr]. intros a b. apply symmetrise_edge. exact Hwf. }
+  rewrite <- R, <- H2. symmetry. apply Nat.eqb_eq.
 Qed.
